@@ -18,14 +18,29 @@ func H_C20_list() {
 		n.SetItem(unsafe.Pointer(itm))
 		return n
 	}
+	var lastRemoved *skiplist.Node
+	var lastRemovedKey byte
 	for i := 0; i < nops; i++ {
-		switch vChoice("op", i, 2) {
+		switch vChoice("op", i, 3) {
 		case 0:
 			k := vByte("key", i)
 			n := mk(k)
+			if lastRemoved != nil && vChoice("stale", i, 2) == 1 {
+				// the link field is shared with other lists (garbage lists): a node may arrive with a stale link
+				n.SetLink(lastRemoved)
+			}
 			l.Add(n)
 			model = append([]*skiplist.Node{n}, model...)
 			keys = append([]byte{k}, keys...)
+		case 2: // add a node again that was removed earlier (its own link was never cleared)
+			if lastRemoved == nil {
+				vAssume(false)
+			}
+			l.Add(lastRemoved)
+			model = append([]*skiplist.Node{lastRemoved}, model...)
+			keys = append([]byte{lastRemovedKey}, keys...)
+			lastRemoved = nil
+			vReach("list-readd-removed-node")
 		case 1:
 			k := vByte("key", i)
 			got := l.Remove([]byte{k})
@@ -40,6 +55,7 @@ func H_C20_list() {
 				vAssert(got == nil, "Remove of absent key returns nil")
 			} else {
 				vAssert(got == model[idx], "Remove returns first node with equal key")
+				lastRemoved, lastRemovedKey = got, k
 				model = append(model[:idx:idx], model[idx+1:]...)
 				keys = append(keys[:idx:idx], keys[idx+1:]...)
 				vReach("list-remove-present")
